@@ -9,6 +9,7 @@ import (
 
 	"github.com/jamespfennell/gtfs/extensions"
 	gtfsrt "github.com/jamespfennell/gtfs/proto"
+	"github.com/jamespfennell/gtfs/verifhook"
 	"google.golang.org/protobuf/proto"
 )
 
@@ -276,6 +277,7 @@ func ParseRealtime(content []byte, opts *ParseRealtimeOptions) (*Realtime, error
 
 	shouldSkip := make([]bool, len(feedMessage.GetEntity()))
 	for i, entity := range feedMessage.Entity {
+		verifhook.Yield("rt.prepass")
 		if tripUpdate := entity.GetTripUpdate(); tripUpdate != nil {
 			r := opts.Extension.UpdateTrip(tripUpdate, feedMessage.GetHeader().GetTimestamp())
 			shouldSkip[i] = r.ShouldSkip
@@ -292,6 +294,7 @@ func ParseRealtime(content []byte, opts *ParseRealtimeOptions) (*Realtime, error
 	vehicleIDToTripID := map[VehicleID]TripID{}
 	vehiclesWithNoID := []Vehicle{}
 	for i, entity := range feedMessage.Entity {
+		verifhook.Yield("rt.entity")
 		if shouldSkip[i] {
 			continue
 		}
